@@ -95,6 +95,12 @@ def judge(c):
     if c.meta["fam"] == "D":
         parts = [x.strip() for x in I.split(";")]
         if I == "ERR bounds":
+            if M != "ERR bounds" and M != "UNMODELLED" and not M.startswith(("ERR", "EXC")):
+                # the year of the converted point fits the agreed digits (the dump model, proved for these formats,
+                # prints it): refusing it is a failure to dump a valid point
+                res.append(("violation", "%s dumped with %r is refused (bounds) although its year fits: expected %s" % (
+                    p, c.meta["fmt"], M.split(";")[0].strip())))
+                return res
             c.meta["skipped"] = True   # the conversion carried the year outside the agreed digits: refusing is right
             return res
         if len(parts) != 2 or parts[1] != "EQ":
